@@ -91,7 +91,7 @@ def setup_worker(ctx):
 def cases(seed, tier):
     rng = rng_for(seed, 'C15')
     out = []
-    for r in range(40 if tier == 'quick' else 900):
+    for r in range(40 if tier == 'quick' else 5000):
         k = int(rng.integers(2, 6))
         kinds = [str(x) for x in rng.choice(KINDS, size=k, replace=True)]
         if r % 4 == 0:
@@ -99,7 +99,7 @@ def cases(seed, tier):
         out.append({'mode': 'history', 'kinds': kinds, 'ops': int(rng.integers(10, 41)),
                     'seed_kinds': [str(rng.choice(['int', 'RandomState'])) for _ in kinds],
                     'seed': int(rng.integers(1 << 31))})
-    for r in range(len(KINDS) * (2 if tier == 'quick' else 6)):
+    for r in range(len(KINDS) * (2 if tier == 'quick' else 40)):
         out.append({'mode': 'unseeded', 'kind': KINDS[r % len(KINDS)], 'seed': int(rng.integers(1 << 31))})
     for r in range(6 if tier == 'quick' else 40):
         out.append({'mode': 'raises', 'seed': int(rng.integers(1 << 31))})
